@@ -39,9 +39,25 @@ pub fn run_jobs(target: &str, runs: u64, jobs: u32, seed: u64, max_len: u32, dic
     let before: std::collections::BTreeSet<PathBuf> = list(Path::new(&art_dir)).into_iter().collect();
     let copy_corpus = |to: &str| {
         std::fs::create_dir_all(to).ok();
-        for f in list(Path::new(&format!("/verif/corpus/{target}"))) {
+        let seeds = list(Path::new(&format!("/verif/corpus/{target}")));
+        for f in &seeds {
             if let Some(n) = f.file_name() {
-                let _ = std::fs::copy(&f, Path::new(to).join(n));
+                let _ = std::fs::copy(f, Path::new(to).join(n));
+            }
+        }
+        if seeds.is_empty() {
+            // targets whose decoder is a proptest strategy: random byte strings of full length are valid, varied
+            // inputs (libFuzzer grows inputs slowly from an empty corpus)
+            let mut x = crate::engine::mix(seed, 0xC0FFEE);
+            for i in 0..48u32 {
+                let len = [256usize, 1024, 4096, max_len as usize][i as usize % 4].min(max_len as usize);
+                let mut buf = Vec::with_capacity(len);
+                while buf.len() < len {
+                    x = crate::engine::mix(x, i as u64 + 1);
+                    buf.extend_from_slice(&x.to_le_bytes());
+                }
+                buf.truncate(len);
+                let _ = std::fs::write(Path::new(to).join(format!("rand-{i:02}")), &buf);
             }
         }
     };
